@@ -16,7 +16,8 @@ PROP = {
                   "concentrated at range edges, midnight and every offset transition 1970-2040, compared with a "
                   "wall-clock reference; JSON/YAML round-trip chains read back by an independent decoder; "
                   "accept/reject compared with the stated validity rule. Exploration: no absence claim, but the "
-                  "input space that matters (transition days x edge instants) is covered densely.",
+                  "input space that matters (transition days x edge instants) is covered densely."
+                  " The services part also changes the global settings at run time through the deprecated (list only) and the current (list and schedule) API and compares what GET shows.",
     "level_note": "Trusts Go's time package/tzdata, encoding/json and yaml.v3. ApplyBlockedServices' use of the "
                   "schedule is exercised in C01 only for clock-free schedules.",
     "shards": (1, 16),
